@@ -741,8 +741,15 @@ class Interp:
             raise Undecided(f"truth value of symbolic {v}")
         if isinstance(v, (list, tuple, str, dict)):
             return bool(v)
+        if isinstance(v, Obj) and "__bool__" in self.externals:
+            try:
+                return bool(self.externals["__bool__"](v))
+            except NotHandled:
+                pass
         if isinstance(v, (Obj, Closure, PyFunc)):
             return True
+        if isinstance(v, set):
+            return bool(v)
         raise Undecided("truth value")
 
     def binop(self, op, a, b):
@@ -823,6 +830,8 @@ class Interp:
                 k = self._mangle(e.attr)
                 if k in self.selfattrs:
                     return self.selfattrs[k]
+                if e.attr in self.methods and any(A.dotted(d) in ("property", "functools.cached_property", "cached_property") for d in self.methods[e.attr].decorator_list):
+                    return self.call_function(self.methods[e.attr], [], {}, bind_self=True)
                 if e.attr in self.methods:
                     node = self.methods[e.attr]
                     return PyFunc(lambda a, kw, node=node: self.call_function(node, a, kw, bind_self=True), f"self.{e.attr}")
@@ -837,6 +846,11 @@ class Interp:
                 if isinstance(basev, Obj):
                     if e.attr in basev.attrs:
                         return basev.attrs[e.attr]
+                    if "__getattr__" in self.externals:
+                        try:
+                            return self.externals["__getattr__"](basev, e.attr)
+                        except NotHandled:
+                            pass
                     if basev.closed:
                         raise _PyRaise("AttributeError")
                     return Obj(f"{basev.name}.{e.attr}")
@@ -960,6 +974,11 @@ class Interp:
                     st = self._int(e.slice.step, 1)
                     return list(base[lo:hi:st])
                 raise Undecided("slicing")
+            if isinstance(base, Obj) and "__getitem__" in self.externals:
+                try:
+                    return self.externals["__getitem__"](base, self.eval(e.slice))
+                except NotHandled:
+                    pass
             if isinstance(base, Obj):
                 return Obj(f"{base.name}[{A.short(e.slice, 30)}]")
             if isinstance(base, Poly):
@@ -971,6 +990,11 @@ class Interp:
                 i = int(to_poly(idx).const_value())
                 return base[i]
             if isinstance(base, dict):
+                try:
+                    if idx not in base and not hasattr(type(base), "__missing__"):
+                        raise _PyRaise("KeyError")
+                except TypeError:
+                    raise _PyRaise("TypeError")  # unhashable key
                 return base[idx]
             if isinstance(base, Poly):
                 return base  # element of an element-wise tensor
@@ -1095,6 +1119,8 @@ class Interp:
         if isinstance(f, ast.Attribute) and not (isinstance(f.value, ast.Name) and f.value.id in MODULE_NAMES):
             try:
                 recv = self.eval(f.value)
+            except RaisedInFragment:
+                raise
             except Undecided:
                 recv = None
             if "." + f.attr in self.externals and recv is not None:
@@ -1437,7 +1463,12 @@ class Interp:
                 return sorted(seq, reverse=rev)
             if isinstance(seq, (list, tuple)):
                 rev = self.truth(ev(kw["reverse"])) if "reverse" in kw else False
-                keyf = ev(kw["key"]) if "key" in kw else None
+                keyf = None
+                if "key" in kw:
+                    if isinstance(kw["key"], ast.Name) and kw["key"].id in ("str", "repr") and kw["key"].id not in self.env:
+                        keyf = PyFunc(lambda a, k: str(a[0]) if isinstance(a[0], str) else str(to_poly(a[0])), "str")
+                    else:
+                        keyf = ev(kw["key"])
 
                 def concrete(v):
                     if isinstance(v, str):
@@ -1453,6 +1484,8 @@ class Interp:
                 def keyof(x):
                     if keyf is None:
                         return concrete(x)
+                    if isinstance(keyf, PyFunc):
+                        return concrete(keyf.f([x], {}))
                     if isinstance(keyf, Closure) and isinstance(keyf.node, ast.Lambda):
                         sub = Interp(self.env, self.selfattrs, self.region, self.methods, self.cls_name, externals=self.externals)
                         sub.env.update(keyf.interp.env if hasattr(keyf, "interp") and keyf.interp is not self else {})
